@@ -265,6 +265,19 @@ def run(R):
                     doms += 1
             if doms < 2:
                 ok = False
+        # a comparison of values inside a closure made in this arm (`values.iter().any(|v| v == &operand)`) has no NULL test in front of it
+        hidden = []
+        for i_, st_ in f.stmts():
+            if i_ in ireg and st_["k"] == "assign" and st_["rv"]["k"] == "aggr" and st_["rv"].get("ak") == "closure":
+                ch = P.fns.get(st_["rv"].get("closure")) or next((g for g in P.children.get(getattr(f, "key", None), []) if g.key.endswith(str(st_["rv"].get("closure")))), None)
+                if ch is None:
+                    continue
+                for c in ch.calls:
+                    if re.search(r"PartialEq(<.*>)?>?::(eq|ne)$", short(c.name)) and any(V in t for t in (c.func.get("res_targs") or c.targs or [])[:1]) and \
+                            not [x for x in ch.calls if short(x.name) == V + "::is_null"]:
+                        hidden.append(c)
+        if hidden:
+            ok = False
         if ok:
             R.ok("C03.null", "in", "the element comparison is dominated by NULL tests of the operand and of the element", eqs[0].loc())
         else:
